@@ -4,7 +4,8 @@ wire format is written by hand (enc_pb.py).
 
 Everything a producer may choose comes from the TLC-exported choice vector (specs/PbfChoices.tla):
 how objects are spread over blocks and groups, plain or dense nodes, raw / zlib / lz4 blobs, granularity,
-lat / lon offset and date granularity of each block, which optional Info fields are written, the layout
+lat / lon offset and date granularity of each block (they also govern the node locations a way may carry in
+Way.lat / Way.lon), which optional Info fields are written, the layout
 of the string table, unknown extra fields at every message level, index data in the BlobHeader,
 BlobHeader and Blob sizes up to the format limits, field order inside messages, packed / unpacked /
 split repeated scalars, blobs of a type the reader does not know."""
@@ -239,6 +240,17 @@ class Block:
                     refs.append(r - last)
                     last = r
                 f = [f_varint(1, o["id"])] + self.tags(o, pack) + [self.info(o, grp, hist), f_repeated(8, refs, svarint, pack)]
+                locs = o.get("locs") or []
+                if any(x is not None for x in locs):     # "LocationsOnWays": Way.lat = 9, Way.lon = 10, packed sint64, DELTA coded
+                    if any(x is None for x in locs) or len(locs) != len(o["refs"]):
+                        raise PlanError("way with locations for some of its node references only")
+                    lats, lons, lla, llo = [], [], 0, 0
+                    for lon, lat in locs:
+                        la, lo = self.lat(lat), self.lon(lon)
+                        lats.append(la - lla)
+                        lons.append(lo - llo)
+                        lla, llo = la, lo
+                    f += [f_repeated(9, lats, svarint, pack), f_repeated(10, lons, svarint, pack)]
                 out.append(f_bytes(3, order(f + unk[:2], how)))
         elif kind == "rels":
             for o in objs:
